@@ -111,6 +111,7 @@ func cmdRun(args []string) {
 	symmake := fs.Bool("symmake", false, "")
 	ufrem := fs.Bool("ufrem", false, "")
 	ufmul := fs.Bool("ufmul", false, "")
+	realb58 := fs.Bool("realb58", false, "")
 	stubs := fs.String("stubs", "", "fn=stub,fn=stub")
 	tmo := fs.Int("timeout", 60000, "")
 	fs.Parse(args)
@@ -146,6 +147,7 @@ func cmdRun(args []string) {
 	cfg.SymbolicMake = *symmake
 	cfg.UFRem = *ufrem
 	cfg.UFMul = *ufmul
+	cfg.RealBase58 = *realb58
 	if *stubs != "" {
 		cfg.Stubs = map[string]string{}
 		for _, kv := range strings.Split(*stubs, ",") {
